@@ -147,7 +147,7 @@ def file_cases(level, ext):
                 c.append(("xz", "d", T, o + ("K" if o else "")))
                 c.append(("xz", "t", T, o))
             c.append(("xz", "dcfile", T, ""))
-            c.append(("xz", "t", T, "q")); c.append(("xz", "dc", T, "q"))
+            c.append(("xz", "t", T, "q")); c.append(("xz", "dc", T, "q")); c.append(("xz", "dc", T, "C")); c.append(("xz", "t", T, "C"))   # C: an encoder-only option given while decompressing changes nothing
         c.append(("xz", "dcstdin", 1, ""))
         c.append(("xz", "dcstdin", 4, "S"))
         c += [("xzdec", "file", 0, ""), ("xzdec", "stdin", 0, "")]
@@ -158,7 +158,7 @@ def file_cases(level, ext):
               ("xz", "dc", 1, "S"), ("xz", "dc", 1, "I"), ("xz", "dc", 1, "F"), ("xz", "dc", 1, "Q"),
               ("xz", "dc", 4, "S"), ("xz", "dc", 4, "I"),
               ("xz", "d", 1, "K"), ("xz", "d", 4, "K"), ("xz", "d", 1, "S"),
-              ("xz", "t", 1, ""), ("xz", "t", 4, ""), ("xz", "t", 1, "q"), ("xz", "dc", 1, "q"),
+              ("xz", "t", 1, ""), ("xz", "t", 4, ""), ("xz", "t", 1, "q"), ("xz", "dc", 1, "q"), ("xz", "dc", 1, "C"),
               ("xz", "dcfile", 1, ""),
               ("xzdec", "file", 0, "")]
         if ext == "lzma":
@@ -166,7 +166,7 @@ def file_cases(level, ext):
     return c
 
 
-OPTFLAGS = {"S": "--single-stream", "I": "--ignore-check", "F": "-f", "Q": "-Q", "K": "-k", "q": "-qq"}   # q: messages off, status unchanged
+OPTFLAGS = {"S": "--single-stream", "I": "--ignore-check", "F": "-f", "Q": "-Q", "K": "-k", "q": "-qq", "C": "--check=crc32"}   # q: messages off, status unchanged
 
 
 class Prefix(bytes):
@@ -463,6 +463,12 @@ def gen_inputs(tier, B):
             if found is not None:
                 items.append(("sized-%s-%d" % (fmt, tgt), ext, found, "full"))
                 items.append(("sized-%s-%d+junk" % (fmt, tgt), ext, found + b"\x55", "full"))
+    # .lzma files whose dictionary size has the 2^n + 2^(n-1) form (accepted by xz's and liblzma's plausibility tests)
+    for dsz in ("6KiB", "96KiB", "3MiB"):
+        rc, blob, err = prun([B["xz"], "--format=lzma", "--lzma1=dict=" + dsz, "-c"], stdin=_tmpfile(b"dictionary size " + dsz.encode() + b"\n" * 40))
+        if rc == 0:
+            items.append(("lzma-dict-" + dsz, "lzma", blob, "full"))
+            items.append(("lzma-dict-%s^01@%d" % (dsz, len(blob) - 3), "lzma", blob[:-3] + bytes([blob[-3] ^ 1]) + blob[-2:], "full"))
     # truncations and single-byte corruptions
     for n, e, b in seeds:
         ln = len(b)
